@@ -14,12 +14,22 @@ import (
 
 // FundCommitteeRewardPools() mints newly created tokens to protocol subsidized committees
 func (s *StateMachine) FundCommitteeRewardPools() lib.ErrorI {
-	subsidizedChainIds, daoCut, _, mintAmountPerCommittee, err := s.GetBlockMintStats(s.Config.ChainId)
+	subsidizedChainIds, daoCut, totalMint, mintAmountPerCommittee, err := s.GetBlockMintStats(s.Config.ChainId)
 	if err != nil {
 		if err.Code() == lib.CodeNoSubsidizedCommittees {
 			return nil
 		}
 		return err
+	}
+	// the supply counter is a uint64: once the block reward no longer fits, minting stops (instead of wrapping the
+	// counter or failing every block)
+	supply, err := s.GetSupply()
+	if err != nil {
+		return err
+	}
+	if supply.Total > math.MaxUint64-totalMint {
+		s.log.Warnf("block reward %d does not fit into the supply counter (total %d): not minting", totalMint, supply.Total)
+		return nil
 	}
 	// mint to the DAO account
 	if err = s.MintToPool(lib.DAOPoolID, daoCut); err != nil {
